@@ -7,7 +7,7 @@ from harness.props import symcore_driver as D
 
 STR_KEYS = ['a', 'b', 'c', 'x', 'y', 'z']
 INT_KEYS = [0, 1, 2, 7]
-LEAF_STRS = ['', 'a', 'hi']
+LEAF_STRS = ['', 'a', 'b']     # length <= 1: CPython identity of longer strings is not modelled
 
 def ek(k):
   return D.enc_key(k)
@@ -67,7 +67,7 @@ class Gen:
       items = [[ek(k), child()] for k in keys]
     else:
       fields = D.CLASS_FIELDS[kind - 2]
-      items = [[ek(k), child()] for k in fields if r.random() < 0.6]
+      items = [[ek(k), child() if r.random() < 0.6 else [0, [0]]] for k in fields]
     fl = [0, 1, 0] if plain else self.flags()
     if kind >= 2 and not plain and r.random() < 0.7:
       fl[1] = int(D.CLASS_AW[kind - 2])
@@ -111,7 +111,8 @@ class Gen:
     kids = D.sym_children(x)
     if kids and r.random() < 0.25:
       kk, vv = r.choice(kids)
-      return [1, ri, [ek(k) for k in keys] + [ek(kk)]]
+      if D.is_sym(vv) or impl.enc_leaf(vv, None)[0] != 9:
+        return [1, ri, [ek(k) for k in keys] + [ek(kk)]]
     return [1, ri, [ek(k) for k in keys]]
 
   def index(self, n, for_insert=False):
